@@ -236,7 +236,7 @@ func init() {
 					c.Sample(map[string]any{"records": len(g.Lines), "first": clipStr(g.Lines[0], 160)})
 				}
 			}
-			n := c.Pick(40_000, 2_000_000)
+			n := c.Pick(40_000, 8_000_000)
 			c.ForEach(n, func(w, i int) {
 				r := c.Rand(1, uint64(i))
 				var g logenc.Group
